@@ -970,7 +970,7 @@ fn tier_params(prop: &str, tier: &str) -> Tier {
         ("C01", _) => Tier {
             runs: 3_000_000,
             batch: 500,
-            max_wall: 1800,
+            max_wall: 2700,
             minimise_budget: 120,
         },
         ("C10", "quick") => Tier {
@@ -982,7 +982,7 @@ fn tier_params(prop: &str, tier: &str) -> Tier {
         _ => Tier {
             runs: 1_500_000,
             batch: 400,
-            max_wall: 1800,
+            max_wall: 2700,
             minimise_budget: 120,
         },
     }
